@@ -1,6 +1,6 @@
 (* Extraction of the C20 model (family "external"): ExtrOcamlBasic + ExtrOcamlString only; nat stays inductive. *)
 From Coq Require Import Extraction ExtrOcamlBasic ExtrOcamlString.
 From LC Require Import AnalysisDefs AnalysisSpec ExternalDefs.
-Extraction "external_model.ml" analyse analyse_ext analyse_x analyse_xg nla_dep_fix analyse_marked voi_fix sibling_fix make_mark add_external_variable local_marks
+Extraction "external_model.ml" analyse analyse_ext analyse_x analyse_xg nla_dep_fix state_rescue_fix analyse_marked voi_fix sibling_fix make_mark add_external_variable local_marks
   marked_classes definition_of depends_on linked_classes is_voi_class method_bodies ordered_from eq_positions
   state_rate_based to_be_computed_again dep_wanted all_pos valid_type all_avars find_aeq cls_of classification.
